@@ -183,7 +183,9 @@ func (Engine) Run(c *simkit.Choices, x *simkit.Ctx) *simkit.Violation {
 	}
 	var idle []int
 	if u, err := gotype.NewUnfolder(nil); err == nil {
-		idle = append(idle, u.VerifDepths()...)
+		if d, ok := simkit.Depths(u); ok {
+			idle = append(idle, d...)
+		}
 	}
 
 	for _, k := range ks {
@@ -264,7 +266,7 @@ func (Engine) Run(c *simkit.Choices, x *simkit.Ctx) *simkit.Violation {
 		pi := simkit.Guard(func() {
 			u := r.u
 			u.Reset()
-			if d := u.VerifDepths(); !reflect.DeepEqual(d, idle) {
+			if d, ok := simkit.Depths(u); ok && !reflect.DeepEqual(d, idle) {
 				v = &simkit.Violation{Kind: "stack-not-idle", Site: site,
 					Detail: fmt.Sprintf("after Reset the unfolder stacks are %v, a new unfolder has %v", d, idle), Scenario: sc}
 				return
